@@ -609,7 +609,21 @@ func mutateMsg(m sdk.Msg, g *Gen) []msgMut {
 
 // HostileBytes derives a byte string from a valid encoding.
 func HostileBytes(r *sim.Rand, valid []byte) []byte {
-	switch r.Intn(8) {
+	switch r.Intn(9) {
+	case 8:
+		// length prefixes in unusual varint forms: padded, too long for 64 bits, unterminated
+		k := []int{1, 2, 8, 9, 10, 11, 15}[r.Intn(7)]
+		b := make([]byte, 0, k+1+len(valid))
+		for i := 0; i < k; i++ {
+			b = append(b, []byte{0x80, 0xff, 0x81}[r.Intn(3)])
+		}
+		if !r.Chance(20) {
+			b = append(b, []byte{0x00, 0x01, 0x02, 0x7f}[r.Intn(4)])
+		}
+		if r.Bool() && len(valid) > 1 {
+			b = append(b, valid[1:]...)
+		}
+		return b
 	case 0:
 		return r.Bytes(1 + r.Intn(300))
 	case 1:
